@@ -43,7 +43,8 @@ def norm(data, name):
     wider than 31 bits, (hi << 31 | lo), so that it is compared by value"""
     data = WIDE_C.sub(lambda m: ("%dL" % ((int(m.group(1)) << int(m.group(2))) | int(m.group(3)))).encode(), data.decode("latin-1")).encode("latin-1") if isinstance(data, bytes) and False else data
     text = data.decode("latin-1")
-    val = lambda m: (int(m.group(1)) << int(m.group(2))) | int(m.group(3))
+    w64 = lambda v: ((v + 2 ** 63) % 2 ** 64) - 2 ** 63      # machine integers are 64-bit words: the re-expression is evaluated as the C is
+    val = lambda m: w64((int(m.group(1)) << int(m.group(2))) | int(m.group(3)))
     for _ in range(4):       # the re-expression nests when the high part is itself wider than 31 bits
         before = text
         text = WIDE_C.sub(lambda m: "%dL" % val(m), text)
@@ -52,9 +53,10 @@ def norm(data, name):
         text = WIDE_LSP.sub(lambda m: "(the |SInt| %d)" % val(m), text)
         if text == before:
             break
-    text = re.sub(r"\((\d+L)\)", r"\1", text)
-    text = re.sub(r"\(BCall\s+SIntNegate\s+\(SInt (\d+)\)\)", lambda m: "(SInt -%s)" % m.group(1), text)
-    text = re.sub(r"\(\|SIntNegate\|\s+\(the \|SInt\| (\d+)\)\)", lambda m: "(the |SInt| -%s)" % m.group(1), text)
+    text = re.sub(r"\((-?\d+L)\)", r"\1", text)
+    text = re.sub(r"(?<![\w)])-\s*(-\d+)L(?!\w)", lambda m: "%dL" % w64(-int(m.group(1))), text)
+    text = re.sub(r"\(BCall\s+SIntNegate\s+\(SInt (-?\d+)\)\)", lambda m: "(SInt %d)" % w64(-int(m.group(1))), text)
+    text = re.sub(r"\(\|SIntNegate\|\s+\(the \|SInt\| (-?\d+)\)\)", lambda m: "(the |SInt| %d)" % w64(-int(m.group(1))), text)
     data = text.encode("latin-1")
     out = []
     for i, l in enumerate(data.decode("latin-1").split("\n")):
